@@ -181,7 +181,7 @@ def run(chk):
     chk.assumptions += ["resource counts of the C side: tracked allocator blocks, /proc/self/fd, /proc/self/maps lines of the sequence's own names and of the scratch .so, sem_open/sem_close balance, anonymous mmap bookkeeping, /dev/shm names derived from the sequence's names, pthread_key_create/delete balance",
                         "IPC names carry pid and a counter; loopback only; a detached thread is waited for until it has left /proc/self/task",
                         "the model has the repaired p_shm_free: a handle opened with a size more than a page smaller than the segment shows as finding shm-smaller-size-tail-mapping (F5)"]
-    return chk.finish()
+    return resfam.finish(chk)
 
 
 def replay(chk, path):
